@@ -24,17 +24,40 @@ import (
 	"github.com/tailscale/setec/types/api"
 )
 
-// Value of (name, version): recognisable, 64 bytes, so that a torn or foreign value shows.
+// Value of (name, version): recognisable, 64 bytes, so that a torn or foreign value shows. Every third version begins with
+// a space and ends with a newline (a value is bytes: nothing on the way may "tidy" it).
 func Value(name string, ver int) []byte {
 	unit := fmt.Sprintf("%s@%d|", name, ver)
-	return []byte(strings.Repeat(unit, 64/len(unit)+1))[:64]
+	b := []byte(strings.Repeat(unit, 64/len(unit)+1))[:64]
+	if ver%3 == 0 {
+		b[0], b[63] = ' ', '\n'
+	}
+	return b
 }
 
 // ParseValue recovers (name, version) from a value; ok=false if it is not a whole value.
 func ParseValue(b []byte) (string, int, bool) {
+	if len(b) != 64 {
+		return "", 0, false
+	}
 	s := string(b)
+	edged := b[0] == ' ' && b[63] == '\n'
+	if edged {
+		// the unit is readable from its second repetition
+		i := strings.Index(s, "|")
+		if i < 0 || 2*(i+1) > 63 {
+			return "", 0, false
+		}
+		unit := s[i+1 : 2*(i+1)]
+		want := []byte(strings.Repeat(unit, 64/len(unit)+1))[:64]
+		want[0], want[63] = ' ', '\n'
+		if string(want) != s {
+			return "", 0, false
+		}
+		s = strings.Repeat(unit, 64/len(unit)+1)[:64]
+	}
 	i := strings.Index(s, "|")
-	if i < 0 || len(b) != 64 {
+	if i < 0 {
 		return "", 0, false
 	}
 	unit := s[:i+1]
@@ -49,6 +72,9 @@ func ParseValue(b []byte) (string, int, bool) {
 	}
 	name = unit[:at]
 	if _, err := fmt.Sscanf(unit[at+1:], "%d|", &ver); err != nil {
+		return "", 0, false
+	}
+	if edged != (ver%3 == 0) {
 		return "", 0, false
 	}
 	return name, ver, true
@@ -755,6 +781,40 @@ func (e *Env) Apply(s Step) bool {
 			}
 		}()
 		e.Log(Event{"ev": "handle", "name": s.Name, "res": res})
+	case "updfail":
+		// a handle is taken (as in "handle"), then an updater is requested on the same name whose builder rejects the value:
+		// NewUpdater reports the error -- and the handle taken before is as good as ever (the name stays referenced)
+		st := e.theStore()
+		if st == nil {
+			return false
+		}
+		res := "ok"
+		var h setec.Secret
+		func() {
+			defer func() {
+				if r := recover(); r != nil {
+					res = "panic"
+				}
+			}()
+			if h = st.Secret(s.Name); h == nil {
+				res = "nil"
+			}
+		}()
+		e.Log(Event{"ev": "handle", "name": s.Name, "res": res})
+		if res == "ok" {
+			e.mu.Lock()
+			e.handles[s.Name] = h
+			e.mu.Unlock()
+			_, err := setec.NewUpdater(context.Background(), st, s.Name, func(b []byte) (int, error) {
+				// the builder is handed the secret's current value: that is a read like any other (it stamps the access time)
+				_, ver, _ := ParseValue(b)
+				e.Log(Event{"ev": "read", "name": s.Name, "ver": ver})
+				return 0, errors.New("builder rejects the value (scripted)")
+			})
+			if err == nil {
+				e.Note("NewUpdater succeeded although its builder failed")
+			}
+		}
 	case "read":
 		e.mu.Lock()
 		h := e.handles[s.Name]
